@@ -1,6 +1,6 @@
 SPECIFICATION Spec
 CONSTANTS
   StrictA = FALSE
-INVARIANTS NoLeak
+INVARIANTS NoLeak NoLeakInLedger
 POSTCONDITION TraceAccepted
 CHECK_DEADLOCK FALSE
